@@ -392,10 +392,16 @@ func (e *expoHistogram[N]) delta(dest *metricdata.Aggregation) int {
 
 		if !e.noSum {
 			hDPts[i].Sum = val.sum
+		} else {
+			// The data point may be reused from an earlier collection.
+			hDPts[i].Sum = 0
 		}
 		if !e.noMinMax {
 			hDPts[i].Min = metricdata.NewExtrema(val.min)
 			hDPts[i].Max = metricdata.NewExtrema(val.max)
+		} else {
+			hDPts[i].Min = metricdata.Extrema[N]{}
+			hDPts[i].Max = metricdata.Extrema[N]{}
 		}
 
 		collectExemplars(&hDPts[i].Exemplars, val.res.Collect)
@@ -453,10 +459,16 @@ func (e *expoHistogram[N]) cumulative(dest *metricdata.Aggregation) int {
 
 		if !e.noSum {
 			hDPts[i].Sum = val.sum
+		} else {
+			// The data point may be reused from an earlier collection.
+			hDPts[i].Sum = 0
 		}
 		if !e.noMinMax {
 			hDPts[i].Min = metricdata.NewExtrema(val.min)
 			hDPts[i].Max = metricdata.NewExtrema(val.max)
+		} else {
+			hDPts[i].Min = metricdata.Extrema[N]{}
+			hDPts[i].Max = metricdata.Extrema[N]{}
 		}
 
 		collectExemplars(&hDPts[i].Exemplars, val.res.Collect)
